@@ -80,6 +80,20 @@ def _pack_hostname(hostname: str) -> str:
     return hostname
 
 
+def _custom_header_value(header, name: str):
+    """Value the caller gave for header `name` through the header option, or None."""
+    if not header:
+        return None
+    if isinstance(header, dict):
+        items = header.items()
+    else:
+        items = (line.split(":", 1) for line in header if ":" in line)
+    for k, v in items:
+        if k.strip().lower() == name.lower() and v is not None:
+            return v.strip()
+    return None
+
+
 def _get_handshake_headers(
     resource: str, url: str, host: str, port: int, options: dict
 ) -> tuple:
@@ -107,12 +121,14 @@ def _get_handshake_headers(
     key = _create_sec_websocket_key()
 
     # Append Sec-WebSocket-Key & Sec-WebSocket-Version if not manually specified
-    if not options.get("header") or "Sec-WebSocket-Key" not in options["header"]:
+    # (in the dict or in the list form of the header option, in any letter case)
+    custom_key = _custom_header_value(options.get("header"), "Sec-WebSocket-Key")
+    if custom_key is None:
         headers.append(f"Sec-WebSocket-Key: {key}")
     else:
-        key = options["header"]["Sec-WebSocket-Key"]
+        key = custom_key
 
-    if not options.get("header") or "Sec-WebSocket-Version" not in options["header"]:
+    if _custom_header_value(options.get("header"), "Sec-WebSocket-Version") is None:
         headers.append(f"Sec-WebSocket-Version: {VERSION}")
 
     if not options.get("connection"):
